@@ -3,7 +3,7 @@ CONSTANTS
   SdsWriters = {"DFSD", "SD", "NC"}
   RasWriters = {"DFR8", "DF24", "GR"}
   Shapes <- ShapesB
-  Types = {"i8", "u16", "i32", "f32", "f64", "c8"}
+  Types = {"i8", "u16", "i32", "f32", "f64", "c8", "li16", "lf64"}
   RasDims <- RDimsB
   ScaleSets <- ScalesAll
   Grows = {1, 3}
